@@ -35,6 +35,12 @@ CLAIMED = {
  'C17': dict(text="Theorems C17_publish, C17_filter, C17_subscribe (iff-characterisations of WellFormed), C17_string_publish/subscribe (the malformed suffix is appended exactly when WellFormed reports an error). Correspondence: cross product of the predicate inputs judged by an independent predicate in the harness.",
              note="String() text is modelled for the fmt verbs used; see DESIGN.md §4.",
              technique="Lean 4 theorems by case analysis + differential correspondence with an independent predicate", ref="§7 C17"),
+ 'C18': dict(text="Theorems C18_dump, C18_string, C18_size, C18_setters, C18_decoded: non-interference over arbitrary Connect values of the model — Dump and String of two CONNECT packets that differ only in the bytes of equally long credentials are identical (Dump sees only stars(len), String only the flag byte and the frame size, which depends on the lengths). Correspondence: generated pairs of CONNECT packets through Go Dump/String, compared within the pair and with the model's rendering.",
+             note="The rendering model covers the fmt verbs the library uses; %q of bytes >= 0x80 is compared only as 'returned normally' (DESIGN.md §4). Model/code tie by differential testing.",
+             technique="Lean 4 theorem (two-run non-interference over the rendering model) + differential correspondence", ref="§7 C18"),
+ 'C19': dict(text="Theorems C19_string_total, C19_dump_total, C19_total (over the inductive set Reachable: zero values, constructors, any setter, UnmarshalBinary of any bytes with any outcome, anything ReadPacket returns), C19_inv_zero_new/_setter/_decode, C19_reason_code (complete enumeration of 256 codes: stringer table slicing stays in range), C19_flag_renderers. Every partial Go operation of the renderers (nil will dereference, table slicing) is an explicit panic branch of the model, shown unreachable. Correspondence: String/Dump on zero values, histories, decoded packets, all 256 values of each rendered byte.",
+             note="SetWill(nil) panics inside the setter itself and is outside Reachable. Model/code tie by differential testing.",
+             technique="Lean 4 theorem (invariant by induction over reachable packet values, finite tables by kernel evaluation) + differential correspondence", ref="§7 C19"),
 }
 
 def main():
